@@ -779,7 +779,7 @@ def gen_text(rng, maxstr):
     return ''.join(chars)
 
 
-def gen_graph(rng, n, lim, share=0.2, hostile=0, exotic=0.06, outside=False):
+def gen_graph(rng, n, lim, share=0.2, hostile=0, exotic=0.06, outside=False, tree=False):
     """object specs with sharing and cycles; `lim` steers sizes towards the limits (+-1)."""
     coll = lim.get('coll') if lim.get('coll') is not None else 10
     specs = []
@@ -811,8 +811,21 @@ def gen_graph(rng, n, lim, share=0.2, hostile=0, exotic=0.06, outside=False):
             return rng.randint(1, 4)
         return rng.randint(8, 25)
 
+    taken = [False] * n
+    scalars = [j for j in range(n) if kinds[j] in scalar]
+
     def pick(i, allowed):
-        """a child index: prefer a *recent* or shared one so the graph is deep as well as wide."""
+        """a child index: prefer a *recent* or shared one so the graph is deep as well as wide.  In tree mode every
+        object gets at most one container as parent (scalars may be shared): str() of the roots stays linear."""
+        if tree:
+            if rng.random() < share and scalars:
+                j = rng.choice(scalars)
+                return j if allowed(j) else None
+            for j in range(i + 1, min(n, i + 40)):
+                if not taken[j] and allowed(j):
+                    taken[j] = True
+                    return j
+            return None
         cands = [j for j in range(n) if allowed(j)]
         if not cands:
             return None
@@ -970,12 +983,14 @@ def gen_case(rng, lim=None, nobj=None, hostile=0.0, outside=False, nactions=1, s
              frame_type='single_frame', capture=None, mock_frames=0, locals_self=None, stream='main'):
     lim = lim if lim is not None else gen_limits(rng, small)
     n = nobj if nobj is not None else rng.choice([3, 6, 10, 16, 25, 40, 70])
-    while True:
-        specs = gen_graph(rng, n, lim, share=rng.choice([0.0, 0.1, 0.3, 0.5]), hostile=hostile, outside=outside)
+    for attempt in range(6):
+        tree = attempt >= 2 or n >= 100
+        specs = gen_graph(rng, n, lim, share=rng.choice([0.0, 0.1, 0.3, 0.5]), hostile=hostile, outside=outside,
+                          tree=tree)
         nloc = rng.randint(0 if n > 3 else 1, min(8, n))
         idxs = [rng.randrange(n) for _ in range(nloc)]
         # the agent computes str() of the whole locals dict (log text of process_variable): keep that affordable
-        if expansion_cost(specs, range(n)) <= 20000:
+        if expansion_cost(specs, range(n)) <= 20000 or attempt == 5:
             break
     if hostile or outside:
         idxs += [i for i, s in enumerate(specs) if s['t'] in ('hostile', 'outside')][:2]
